@@ -314,6 +314,10 @@ func genCase(t *rapid.T) tcase {
 				// address and ends the stream)
 				tos = append(tos, "@@")
 			}
+			if e.hasFrom && !e.badFrom {
+				// addressed to its own sender (a client asking its own address)
+				tos = append(tos, e.from, e.from)
+			}
 			attrs = append(attrs, xt.A("to", rapid.SampledFrom(tos).Draw(t, "toaddr")))
 		}
 		if rapid.IntRange(0, 5).Draw(t, "foreignAttrs") == 0 {
